@@ -11,9 +11,9 @@ checks = {
    "alphabets are finite (2-4 keys, 2-5 value lengths): 'all sizes x all histories' is not covered, sizes are covered per call by C09"),
  "C02": (A+" + "+B, "model_checking", "explicit-state BFS over on-disk images (every transition is close+re-open), re-open under a parameter list on every state; re-open letters inside bounded-exhaustive sequences",
    "Every transition of the image graph is 'drop all handles, re-open'; on every reachable state the map is re-opened under 3 other parameter sets and compared (get, absent keys, len, full iteration). Sequences with Reopen(P), drop-map, drop-db, live-iterator and clone letters cover interleavings with live handle graphs.",
-   "consecutive transitions run in different worker processes; a fresh process per transition is not spawned"),
+   "consecutive transitions run in different worker processes; a freshly spawned process per state only on the first closure"),
  "C03": (C, "fault_enumeration", "exhaustive crash-point enumeration: every durability call of every call sequence up to depth 4/5, directory snapshot + SIGKILL + system-call log",
-   "Every flush/sync_data/sync_all (map, clone, database) that returns Ok in every sequence over the letters is a crash point: the directory is copied with all handles alive and must decode and open to the model; for sync_* the shim's system-call log must show an OS sync after each file's last write; the writer is SIGKILLed at the crash point (all sequences of depth 3) and another process opens what is left.",
+   "Every flush/sync_data/sync_all (map, clone, database; five maps of all key types open) that returns Ok in every sequence over the letters is a crash point: the directory is copied with all handles alive and must decode and open to the model; for sync_* the shim's system-call log must show an OS sync after each file's last write; the writer is SIGKILLed at the crash point (all sequences of depth 3) and another process opens what is left.",
    "process death only (no power-loss reordering); the shim sees libc write/pwrite/ftruncate/fsync/fdatasync"),
  "C04": (D+" + "+A, "model_checking", "exhaustive enumeration of table occupancy patterns per table size + iterator oracle on every state of image-graph closures",
    "The scan depends only on (table size, occupied buckets, chain lengths): all 2^n patterns for n<=16 in Gray order on a live map, all <=2-bucket and dense-minus-one patterns up to 256 (1024 thorough), singletons / boundary pairs / dense-minus-one up to 65536, every power-of-two size 1..65536 requested three ways; all 7 iterator flavours with exact size_hint and post-exhaustion behaviour; plus arbitrary histories via closures under 5 table sizes.",
@@ -26,7 +26,7 @@ checks = {
    "bounded alphabets; the bound is per alphabet, not a closed-form bound for arbitrary workloads"),
  "C07": (B, "model_checking", "configuration lattice x bounded-exhaustive histories on the real code against one reference model",
    "Every single-coordinate deviation of (table parameter, val/key/htx buffer parameter) and every table x buffer pair (thorough: the full 24x8^3 product) runs all histories of the stated depth plus fixed eviction-heavy histories; each must agree with the one model, decode, and show the same contents when re-opened under three other configurations.",
-   "PerMille(<1000) configurations fall into a known finding of the dependency rabuf and are not multiplied beyond single coordinates in the quick tier; alternative cargo feature sets are not rebuilt"),
+   "PerMille(<1000) configurations fall into a known finding of the dependency rabuf and are not multiplied beyond single coordinates in the quick tier; under the alternative cargo feature sets (thorough) only model and re-open oracles apply"),
  "C08": (A, "model_checking", "explicit-state BFS over on-disk images on all-colliding key sets, from empty and from seeded images at offset-width boundaries",
    "Keys all collide in one bucket and have record lengths exactly on slot-class edges for head/middle/tail positions; seeded images built by the real code put the end of .val/.key at 16 KiB (128 KiB, 2 MiB thorough) minus {0,16,48} with freed slots below; BFS to closure or cap. The evidence counts transitions that really moved a key record per chain position and per cause (put/delete, target/other).",
    "3 keys do not always close within the quick cap (depth >= 7 fully covered); the 256 MiB width step is not materialised"),
@@ -37,7 +37,7 @@ checks = {
    "Round trips by value/reference, pairwise-distinct encodings, hash agreement with the documented function, cmp_u8 on a 94x94 boundary grid, typed maps over the boundary integers with iteration back-conversion, byte/string key sets with prefixes, NULs and non-UTF-8.",
    "2^64 cannot be enumerated; the domain is stated in the evidence"),
  "C11": (B, "model_checking", "bounded-exhaustive call sequences over several named maps and five handle kinds; projection differential",
-   "All 46^3 (61^3 thorough) sequences over put/delete on 3-4 maps of mixed key types through first handle / clone / repeated lookup / lookup via db.clone() / *_with_params, plus db.sync_all; after every call every live handle of every map is compared with its map's model; files of map j must be a function of j's own update subsequence (digest comparison across all sequences).",
+   "All 73^3 sequences over put/delete on 6 maps of all five key types (two names differing only after a dot) through first handle / clone / repeated lookup / lookup via db.clone() / *_with_params, plus db.sync_all; after every call every live handle of every map is compared with its map's model; files of map j must be a function of j's own update subsequence (digest comparison across all sequences).",
    "depth 3; two keys per map"),
  "C12": (A, "model_checking", "golden images of the pinned release as start states of the image-graph search; decoder bound to released bytes",
    "15 images written by commit 4b82afd (5 key types x 3 histories) must be decoded by the independent decoder to their recorded contents, open under the current build with identical contents, stay byte-identical under read-only sessions, and keep every C01/C05/C06/C17 oracle on all successors of histories over existing and new keys.",
@@ -52,8 +52,8 @@ checks = {
    "On every reachable state each of 24 read-only calls alone (all ordered pairs in thorough) in its own open/close bracket must leave the three files byte-identical and the contents unchanged; combined sessions on further closures, table sizes 8..1024 and all key types.",
    "states are those of the small closures"),
  "C16": (C, "fault_enumeration", "deviation-bounded fault enumeration: every write of every durability call refused (1 deviation; 2 deviations for short histories / thorough)",
-   "For all update histories of 1..3 letters x 5 durability calls: count the W writes of the call, then refuse the k-th write for every k and both refusal modes; the call must return Err, reads while refusing must be right or Err, after lifting the view equals the model before any flush, the next flush succeeds and the snapshot decodes and opens to the model.",
-   "only write refusals (ENOSPC / short write); the RLIMIT_FSIZE cross-check is not implemented"),
+   "For all update histories of 1..3 letters over two maps x 5 durability calls: count the W writes of the call, then refuse the k-th write for every k and three refusal modes, and apply the real RLIMIT_FSIZE at every distinct threshold; the call must return Err, reads while refusing must be right or Err, after lifting the view equals the model before any flush, the next flush succeeds and the snapshot decodes and opens to the model.",
+   "only write refusals (three injector modes + the kernel's RLIMIT_FSIZE); failing fsync/ftruncate is not explored"),
  "C17": (A, "model_checking", "explicit-state BFS over on-disk images; statistics calls compared with the independently decoded structure on every state",
    "Every statistics figure is recomputed from the decoder's view of the files on every state of closures that include large-list alphabets, empty keys/values and multi-bucket tables; termination under a watchdog.",
    "keys_count_stats is not compared (the property is silent about it)"),
